@@ -50,6 +50,18 @@ impl Num {
             _ => 0.0,
         }
     }
+    fn has16(&self, name: u16) -> bool {
+        u8::try_from(name).map_or(false, |b| self.layout.contains(&b))
+    }
+    fn stored1_16(&self, name: u16) -> f64 {
+        u8::try_from(name).map_or(0.0, |b| self.stored1(b))
+    }
+    fn stored2_16(&self, a: u16, b: u16) -> f64 {
+        match (u8::try_from(a), u8::try_from(b)) {
+            (Ok(a), Ok(b)) => self.stored2(a, b),
+            _ => 0.0,
+        }
+    }
     fn dual(&self) -> Dual {
         if self.n() == 0 { Dual::new(self.real.0, vec![]) } else { Dual::try_new(self.real.0, self.names(), self.d1v()).expect("num") }
     }
@@ -64,10 +76,15 @@ pub struct Case {
     /// second number for the product-rule identity
     pub g: Num,
     /// requested names: distinct, any order, present or absent
-    pub request: Vec<u8>,
+    pub request: Vec<u16>,
 }
 
 pub struct C17;
+
+/// name of a requested index: the one-byte pool and wide names below 256, "w<i>" beyond
+fn name16(i: u16) -> String {
+    u8::try_from(i).map_or_else(|_| format!("w{}", i), name_of)
+}
 
 fn layout8(max: usize) -> impl Strategy<Value = Vec<u8>> {
     proptest::collection::vec(0u8..8, 0..=max).prop_map(|v| {
@@ -107,20 +124,20 @@ fn case_strategy() -> impl Strategy<Value = Case> {
     ];
     (num(), num(), req).prop_map(|(f, g, req)| {
         let request = match req {
-            Req::Stored => f.layout.clone(),
-            Req::Reversed => f.layout.iter().rev().cloned().collect(),
-            Req::Subset(m) => f.layout.iter().enumerate().filter(|(i, _)| (m >> i) & 1 == 1).map(|(_, n)| *n).collect(),
+            Req::Stored => f.layout.iter().map(|x| *x as u16).collect(),
+            Req::Reversed => f.layout.iter().rev().map(|x| *x as u16).collect(),
+            Req::Subset(m) => f.layout.iter().enumerate().filter(|(i, _)| (m >> i) & 1 == 1).map(|(_, n)| *n as u16).collect(),
             Req::Superset(extra, pos) => {
-                let mut r = f.layout.clone();
+                let mut r: Vec<u16> = f.layout.iter().map(|x| *x as u16).collect();
                 for (k, e) in extra.iter().enumerate() {
-                    if !r.contains(e) {
+                    if !r.contains(&(*e as u16)) {
                         let p = pick(pos.wrapping_mul(k as u16 * 7 + 3), r.len() + 1);
-                        r.insert(p, *e);
+                        r.insert(p, *e as u16);
                     }
                 }
                 r
             }
-            Req::Free(l) => l,
+            Req::Free(l) => l.into_iter().map(|x| x as u16).collect(),
             Req::Empty => vec![],
         };
         Case { f, g, request }
@@ -150,13 +167,13 @@ fn wide_case_strategy() -> impl Strategy<Value = Case> {
     });
     (wide_num(), wide_num(), 0u8..5, any::<u16>(), any::<u16>(), 100u8..120).prop_map(|(f, mut g, mode, s1, s2, absent)| {
         let n = f.layout.len();
-        let mut request = f.layout.clone();
+        let mut request: Vec<u16> = f.layout.iter().map(|x| *x as u16).collect();
         match mode {
             0 => {}
             1 => request.reverse(),
             2 => request.swap(pick(s1, n - 16), pick(s2, n)),          // an early name against any other
             3 => request.swap(pick(s1, n - 16), pick(s2, n - 16).max(1) - 1), // two early names
-            _ => request[pick(s1, n - 16)] = absent,                 // an early name replaced by an absent one
+            _ => request[pick(s1, n - 16)] = absent as u16,                 // an early name replaced by an absent one
         }
         // g on f's list with two early names swapped: the product rule then meets the same layouts
         if mode >= 2 {
@@ -171,6 +188,25 @@ fn wide_case_strategy() -> impl Strategy<Value = Case> {
     })
 }
 
+/// Requests of 257-320 names (a Hessian read against a few hundred solver variables): the stored
+/// number is short (<= 5 names), its names sit anywhere in the request, one always near the end.
+fn long_request_strategy() -> impl Strategy<Value = Case> {
+    (num(), num(), 257usize..=320, proptest::collection::vec(any::<u16>(), 12), any::<bool>()).prop_map(|(f, g, len, pos, reverse)| {
+        // names 300.. are foreign to the stored numbers (which use the pool 0..8)
+        let mut request: Vec<u16> = (300u16..).take(len).collect();
+        for (k, n) in f.layout.iter().enumerate() {
+            let p = if k == 0 { len - 1 - pick(pos[0], 10) } else { pick(pos[k % 12], len) };
+            request[p] = *n as u16;
+        }
+        let mut seen = std::collections::HashSet::new();
+        request.retain(|x| seen.insert(*x));
+        if reverse {
+            request.reverse();
+        }
+        Case { f, g, request }
+    })
+}
+
 impl Property for C17 {
     type Case = Case;
     fn id(&self) -> &'static str {
@@ -180,12 +216,13 @@ impl Property for C17 {
     fn check(&self, c: &Case) -> Verdict {
         let mut v = Verdict::new();
         let req = &c.request;
-        let req_names: Vec<String> = req.iter().map(|i| name_of(*i)).collect();
-        let absent = req.iter().any(|r| !c.f.layout.contains(r));
-        let fast = *req == c.f.layout;
+        let req_names: Vec<String> = req.iter().map(|i| name16(*i)).collect();
+        let absent = req.iter().any(|r| !c.f.has16(*r));
+        let fast = req.len() == c.f.layout.len() && req.iter().zip(c.f.layout.iter()).all(|(a, b)| *a == *b as u16);
         v.label(if fast { "path:fast (request == stored list)" } else { "path:lookup" });
         v.label_if(absent, "request:absent-name");
         v.label_if(req.is_empty(), "request:empty");
+        v.label_if(req.len() > 256, "request:>256-names");
         v.label_if(!c.f.symmetric, "stored:non-symmetric");
         v.nt(!fast && absent && !req.is_empty());
         let m = req.len();
@@ -194,7 +231,7 @@ impl Property for C17 {
         let d = c.f.dual();
         match catch(|| d.gradient1(req_names.clone())) {
             Ok(g) => {
-                if g.len() != m || (0..m).any(|i| g[i].to_bits() != c.f.stored1(req[i]).to_bits() && !(g[i] == 0.0 && c.f.stored1(req[i]) == 0.0)) {
+                if g.len() != m || (0..m).any(|i| g[i].to_bits() != c.f.stored1_16(req[i]).to_bits() && !(g[i] == 0.0 && c.f.stored1_16(req[i]) == 0.0)) {
                     v.fail("Dual::gradient1 | not the stored coefficients in the requested order", format!("stored {:?} on {:?}, requested {:?}, got {:?}", c.f.d1v(), c.f.names(), req_names, g.to_vec()));
                     return v;
                 }
@@ -214,7 +251,7 @@ impl Property for C17 {
             }
         };
         let same = |a: f64, b: f64| a.to_bits() == b.to_bits() || (a == 0.0 && b == 0.0);
-        if g1.len() != m || (0..m).any(|i| !same(g1[i], c.f.stored1(req[i]))) {
+        if g1.len() != m || (0..m).any(|i| !same(g1[i], c.f.stored1_16(req[i]))) {
             v.fail("Dual2::gradient1 | not the stored coefficients in the requested order", format!("stored {:?} on {:?}, requested {:?}, got {:?}", c.f.d1v(), c.f.names(), req_names, g1.to_vec()));
             return v;
         }
@@ -224,7 +261,7 @@ impl Property for C17 {
         }
         for i in 0..m {
             for j in 0..m {
-                let exp = 2.0 * c.f.stored2(req[i], req[j]);
+                let exp = 2.0 * c.f.stored2_16(req[i], req[j]);
                 if !same(g2[[i, j]], exp) {
                     v.fail(
                         "Dual2::gradient2 | not twice the stored coefficient in the requested order",
@@ -249,7 +286,7 @@ impl Property for C17 {
             for j in 0..m {
                 if !same(own[j], g2[[i, j]]) {
                     v.fail(
-                        if c.f.layout.contains(&req[i]) { "gradient1_manifold | own gradient is not the Hessian row" } else { "gradient1_manifold | absent name does not have a zero gradient" },
+                        if c.f.has16(req[i]) { "gradient1_manifold | own gradient is not the Hessian row" } else { "gradient1_manifold | absent name does not have a zero gradient" },
                         format!("entry {} (stored on {:?}, requested {:?}): own gradient {:?}, Hessian row {:?}", req_names[i], c.f.names(), req_names, own.to_vec(), g2.row(i).to_vec()),
                     );
                     return v;
@@ -276,11 +313,11 @@ impl Property for C17 {
                     for i in 0..m {
                         for j in 0..m {
                             // scale: sum of absolute terms of d2(fg)/didj
-                            let (fi, fj, gi, gj) = (c.f.stored1(req[i]), c.f.stored1(req[j]), c.g.stored1(req[i]), c.g.stored1(req[j]));
-                            let scale = (2.0 * c.f.stored2(req[i], req[j]) * c.g.real.0).abs() + (2.0 * c.g.stored2(req[i], req[j]) * c.f.real.0).abs() + (fi * gj).abs() + (fj * gi).abs();
+                            let (fi, fj, gi, gj) = (c.f.stored1_16(req[i]), c.f.stored1_16(req[j]), c.g.stored1_16(req[i]), c.g.stored1_16(req[j]));
+                            let scale = (2.0 * c.f.stored2_16(req[i], req[j]) * c.g.real.0).abs() + (2.0 * c.g.stored2_16(req[i], req[j]) * c.f.real.0).abs() + (fi * gj).abs() + (fj * gi).abs();
                             if !((rows[i][j] - prod[[i, j]]).abs() <= 1e-12 * scale + 1e-300) {
                                 v.fail(
-                                    if c.f.layout.contains(&req[i]) || c.g.layout.contains(&req[i]) { "product rule on manifolds does not reproduce the Hessian of the product" } else { "product rule on manifolds | absent name" },
+                                    if c.f.has16(req[i]) || c.g.has16(req[i]) { "product rule on manifolds does not reproduce the Hessian of the product" } else { "product rule on manifolds | absent name" },
                                     format!("row {} col {}: manifold product rule {:e}, Hessian of product {:e}", req_names[i], req_names[j], rows[i][j], prod[[i, j]]),
                                 );
                                 return v;
@@ -297,11 +334,11 @@ impl Property for C17 {
     }
 
     fn plan(&self, tier: Tier) -> Vec<Stage<Case>> {
-        vec![Stage::random("random", tier.pick(1_000_000, 25_000_000), case_strategy), Stage::random("wide-lists", tier.pick(20_000, 600_000), wide_case_strategy)]
+        vec![Stage::random("random", tier.pick(1_000_000, 25_000_000), case_strategy), Stage::random("wide-lists", tier.pick(20_000, 600_000), wide_case_strategy), Stage::random("long-requests", tier.pick(300, 20_000), long_request_strategy)]
     }
 
     fn rule(&self) -> String {
-        "random (stored number on a layout of 0-5 of 8 names with arbitrary coefficients, symmetric or non-symmetric second-order storage; a second number; a requested list of distinct names: the stored list itself (fast path), reversed, subset, superset with absent names inserted at any position, free list, empty). Wide stage: stored numbers on 17-40 of 100 names, request = stored list / reversed / two names swapped (early ones in particular) / an early name replaced by an absent one. Oracle: gradient1 = stored coefficient or 0, gradient2 = 2 x stored or 0, both exact and in the requested order; gradient1_manifold entries have value = first derivative, own gradient = Hessian row (zeros for an absent name), zero second-order part; product rule on manifolds == Hessian of the product (1e-12 x sum of absolute terms). Non-trivial: requested order != stored order and an absent name is requested.".into()
+        "random (stored number on a layout of 0-5 of 8 names with arbitrary coefficients, symmetric or non-symmetric second-order storage; a second number; a requested list of distinct names: the stored list itself (fast path), reversed, subset, superset with absent names inserted at any position, free list, empty). Wide stage: stored numbers on 17-40 of 100 names, request = stored list / reversed / two names swapped (early ones in particular) / an early name replaced by an absent one. Long-request stage: a short stored number read against 257-320 requested names, its own names anywhere among them and always one near the end. Oracle: gradient1 = stored coefficient or 0, gradient2 = 2 x stored or 0, both exact and in the requested order; gradient1_manifold entries have value = first derivative, own gradient = Hessian row (zeros for an absent name), zero second-order part; product rule on manifolds == Hessian of the product (1e-12 x sum of absolute terms). Non-trivial: requested order != stored order and an absent name is requested.".into()
     }
 
     fn floors(&self, tier: Tier) -> Vec<Floor> {
@@ -310,6 +347,7 @@ impl Property for C17 {
             Floor { label: "path:fast (request == stored list)", min: n * 15 / 100 },
             Floor { label: "path:lookup", min: n * 15 / 100 },
             Floor { label: "request:absent-name", min: n / 5 },
+            Floor { label: "request:>256-names", min: n / 5000 },
             Floor { label: "identity:checked", min: n / 10 },
             Floor { label: "stored:non-symmetric", min: n / 5 },
         ]
